@@ -135,6 +135,23 @@ func Canon(n *J) string {
 	return c.Text()
 }
 
+// DomainDefaults returns the type set and domain object of the payload for HashStruct of
+// the domain: a document without an EIP712Domain type has the empty one, a document
+// without a domain object the empty object (the payload itself is left alone).
+func DomainDefaults(td *eip712.TypedData) (eip712.TypeSet, map[string]interface{}) {
+	types, domain := td.Types, td.Domain
+	if _, ok := types[eip712.EIP712Domain]; !ok {
+		types = eip712.TypeSet{eip712.EIP712Domain: eip712.Type{}}
+		for k, v := range td.Types {
+			types[k] = v
+		}
+	}
+	if domain == nil {
+		domain = map[string]interface{}{}
+	}
+	return types, domain
+}
+
 func decodeValue(text string) (interface{}, error) {
 	d := json.NewDecoder(bytes.NewReader([]byte(text)))
 	d.UseNumber()
@@ -324,16 +341,7 @@ func (r *sessionRun) judgeVar(step int, desc string, td *eip712.TypedData, via s
 		}
 		// (a document without an EIP712Domain type / a domain object is hashed with the empty type / object)
 		if pv := evid.Guard("no-panic:hashstruct", func() {
-			types, domain := td.Types, td.Domain
-			if _, ok := types[eip712.EIP712Domain]; !ok {
-				types = eip712.TypeSet{eip712.EIP712Domain: eip712.Type{}}
-				for k, v := range td.Types {
-					types[k] = v
-				}
-			}
-			if domain == nil {
-				domain = map[string]interface{}{}
-			}
+			types, domain := DomainDefaults(td)
 			dm, err := eip712.HashStruct(r.ctx, eip712.EIP712Domain, domain, types)
 			if err != nil || !bytes.Equal(dm, ref.Result.DomainSeparator) {
 				vs = append(vs, evid.V("domain-separator", "step %d (%s): HashStruct(EIP712Domain) = %x / %v, reference = %x", step, desc, []byte(dm), err, ref.Result.DomainSeparator))
